@@ -282,6 +282,37 @@ func runC07(c *Ctx) {
 		}
 		// dynamic gas functions: every accepting return yields a positive amount is not decidable in general; check that each
 		// adds a positive constant or a gas-table field (structure): recorded as covered by C08-R2 (dynamic) + this note.
+		// the jump-destination bitmap: PUSH data may run up to 32 bytes past the end of the code (a truncated PUSH32 as
+		// the last byte marks positions len .. len+31 with four two-byte set8 writes), so the highest byte written is
+		// len/8 + 4 and the allocation must be at least len/8 + 5 for every code length. The allocation expression is
+		// evaluated symbolically for len = 0..4096 (it is periodic in len mod 8).
+		cb := c.Fn("core/vm:codeBitmap")
+		nMake := 0
+		for _, b := range cb.Blocks {
+			for _, ins := range b.Instrs {
+				ms, ok := ins.(*ssa.MakeSlice)
+				if !ok {
+					continue
+				}
+				nMake++
+				okSize, bad := true, ""
+				for L := int64(0); L <= 4096; L++ {
+					sz, ok := fxEvalInt(ms.Len, map[ssa.Value]int64{cb.Params[0]: L})
+					if !ok {
+						okSize, bad = false, "allocation size is not an arithmetic expression over len(code)"
+						break
+					}
+					if sz < L/8+5 {
+						okSize, bad = false, fmt.Sprintf("len(code)=%d: allocates %d bytes, a trailing PUSH32 writes byte %d", L, sz, L/8+4)
+						break
+					}
+				}
+				c.Ob("C07-R5", "codeBitmap allocates room for push data running past the end of the code (no out-of-range write for any code)", c.Position(ms.Pos()), okSize, "make(bitvec, "+c.termOf(cb, ms.Len)+"); "+bad)
+			}
+		}
+		if nMake != 1 {
+			c.Ob("C07-R5", "codeBitmap has one allocation", c.FnPos(cb), false, fmt.Sprintf("%d", nMake))
+		}
 	})
 	c.Min("C07-R5", 240)
 
@@ -406,6 +437,10 @@ func runC07(c *Ctx) {
 		c.Ob("C07-R10", "bigModExp.Run: three input-sized reads found", c.FnPos(me), n == 3, fmt.Sprintf("%d", n))
 	})
 	c.Min("C07-R10", 6)
+
+	// "a failing frame leaves world state exactly as it was" is implemented by the state journal: its discipline
+	// (journal-before-mutate, complete undo, revert shape, dirty-tracking protocol) is decided by C09's rules, shared here
+	c.Borrow("C09", runC09, map[string]string{"C09-R1": "C07-R12", "C09-R1b": "C07-R12", "C09-R2": "C07-R12", "C09-R5": "C07-R12"})
 }
 
 // c07UnguardedPositions: stack positions (0 = top at entry) whose value is converted by Uint64()/Int64() (or handed to
